@@ -576,8 +576,11 @@ fn end_to_end(p: &Pool, mrows: &Option<Vec<Vec<char>>>, rep: &mut Report, rng: &
         let mut ok = true;
         for &i in &idx {
             let row = vibesql_storage::Row::new(vec![p.vals[i].clone()]);
-            let r = catch_unwind(AssertUnwindSafe(|| db.db.insert_row("e", row)));
+            let r = catch_unwind(AssertUnwindSafe(|| db.db.insert_row("E", row)));
             if !matches!(r, Ok(Ok(_))) {
+                if std::env::var("C21_DEBUG").is_ok() {
+                    eprintln!("insert {} into {}: {:?}", show(&p.vals[i]), ty, r.map_err(|_| "panic"));
+                }
                 ok = false;
                 break;
             }
@@ -680,7 +683,6 @@ fn end_to_end(p: &Pool, mrows: &Option<Vec<Vec<char>>>, rep: &mut Report, rng: &
 
 fn main() {
     let args = Args::parse("C21");
-    engine::silence_panics();
     let mut rep = Report::new(
         &args,
         "pair case: two different pool values (all ordered pairs of the pool are run; identical entries are trivial); triple case: three pairwise different pool values; e2e case: the column holds at least two classes of == and at least one class with two rows",
